@@ -16,7 +16,7 @@ from vk import core  # noqa
 
 core.bind_repo()
 from bromelia.base import DiameterAVP  # noqa
-import bromelia.avps  # noqa
+import bromelia.avps  # noqa  (core.bind_repo imported every bromelia module)
 
 TYPE_ORDER = ["EnumeratedType", "Integer32Type", "Unsigned32Type", "Unsigned64Type", "GroupedType",
               "AddressType", "TimeType", "UTF8StringType", "DiameterIdentityType", "DiameterURIType",
